@@ -29,6 +29,9 @@ var errMalformedXPathKey = errors.New("malformed xpath key")
 
 var escapedBracketsReplacer = strings.NewReplacer(`\]`, `]`, `\[`, `[`)
 
+// bracketsEscapeReplacer is the inverse of the escapedBracketsReplacer
+var bracketsEscapeReplacer = strings.NewReplacer(`]`, `\]`, `[`, `\[`)
+
 func relativeToAbsPath(p *sdcpb.Path, currentPath []*sdcpb.PathElem) *sdcpb.Path {
 	np := &sdcpb.Path{
 		Elem: make([]*sdcpb.PathElem, 0, len(p.GetElem())+len(currentPath)),
@@ -346,7 +349,8 @@ func ToXPath(p *sdcpb.Path, noKeys bool) string {
 				sb.WriteString("[")
 				sb.WriteString(k)
 				sb.WriteString("=")
-				sb.WriteString(kvMap[k])
+				// brackets in key values need to be escaped, ParsePath reverts this
+				sb.WriteString(bracketsEscapeReplacer.Replace(kvMap[k]))
 				sb.WriteString("]")
 			}
 		}
